@@ -191,3 +191,74 @@ func vH_C08_statuscode() {
 	vAssert("C08.statuscode.returns", err == nil || err != nil)
 	vReach("C08.statuscode.end")
 }
+
+// The textual side of the status-code configuration: whatever ParseSegStatusCodes accepts (entries built
+// from present/absent keys and boundary values) satisfies the ranges calcStatusCode relies on.
+func init() { vHarnesses["vH_C08_statuscode_parse"] = vH_C08_statuscode_parse }
+
+var vSCCycle = [7]string{"", "cycle:-1", "cycle:0", "cycle:1", "cycle:30", "cycle:2147483647", "cycle:2147483648"}
+var vSCRsq = [4]string{"", "rsq:-1", "rsq:0", "rsq:7"}
+var vSCCode = [6]string{"", "code:399", "code:400", "code:404", "code:599", "code:600"}
+var vSCRep = [3]string{"", "rep:*", "rep:V300"}
+
+func vSCEntry(i string) string {
+	parts := []string{
+		vSCCycle[vConc(vInt("cy"+i, 0, len(vSCCycle)-1))],
+		vSCRsq[vConc(vInt("rs"+i, 0, len(vSCRsq)-1))],
+		vSCCode[vConc(vInt("co"+i, 0, len(vSCCode)-1))],
+		vSCRep[vConc(vInt("re"+i, 0, len(vSCRep)-1))],
+	}
+	out := ""
+	for _, p := range parts {
+		if p == "" {
+			continue
+		}
+		if out != "" {
+			out += ","
+		}
+		out += p
+	}
+	return out
+}
+
+func vH_C08_statuscode_parse() {
+	val := "[{" + vSCEntry("0")
+	if vBool("two") {
+		// a second, well-formed entry after an arbitrary first one
+		val += "},{cycle:10,rsq:1,code:503"
+	}
+	val += "}]"
+	sc := &strConvAccErr{}
+	codes := sc.ParseSegStatusCodes("statuscode", val)
+	if sc.err != nil {
+		vReach("C08.statuscode-parse.rejected")
+		return
+	}
+	for _, c := range codes {
+		vAssert("C08.statuscode-parse.cycle-range", c.Cycle >= 1 && c.Cycle <= 1<<31-1)
+		vAssert("C08.statuscode-parse.rsq-range", c.Rsq >= 0)
+		vAssert("C08.statuscode-parse.code-range", c.Code >= 400 && c.Code <= 599)
+	}
+	// (vH_C08_statuscode assumes exactly these ranges and shows that calcStatusCode then returns)
+	vReach("C08.statuscode-parse.end")
+}
+
+// audio (and every non-reference representation) is addressed through the reference representation:
+// any number, any start number, default optional parameters, $Number$ addressing
+func init() { vHarnesses["vH_C08_lookup_audio_nr"] = vH_C08_lookup_audio_nr }
+
+func vH_C08_lookup_audio_nr() {
+	a := vAsset_testpic_2s()
+	vPrepareRegexps(a)
+	rep := a.Reps["A48"]
+	rel := vInt("rel1", 0, 1<<41)
+	cfg := vArbitraryCfgOpt(rel, false, false)
+	vAssume(*cfg.TimeShiftBufferDepthS <= 60)
+	now := 1000*cfg.StartTimeS + rel
+	segID := vInt("segID", 0, 1<<62)
+	segPart := vSegName(rep.MediaURI, segID)
+	vStubRep, vStubSegID = rep, segID
+	_, err := findSegMeta(a, cfg, segPart, now)
+	vAssert("C08.lookup-audio.returns", err == nil || err != nil)
+	vReach("C08.lookup-audio.end")
+}
